@@ -8,7 +8,7 @@
 //	   thorough: every one of the 2^32 values; quick: every value below 2^28 plus a structured set
 //	   over the whole range (see part A).
 //	B  the structured 64-bit / 33-bit value set (ten 7-bit groups from a boundary alphabet, plus
-//	   +-2^k+-{0,1,2}; thorough: every s33 value outside the s32 range) through EncodeUint64 /
+//	   +-2^k+-{0,1,2}; a structured set of s33 values outside the s32 range) through EncodeUint64 /
 //	   EncodeInt64 / LoadInt64 / DecodeInt64 / DecodeInt33AsInt64.
 //	C  decoder acceptance: every byte string up to the maximum length (and beyond it) whose
 //	   non-final bytes come from a boundary alphabet and whose final byte takes all 256 values,
@@ -647,13 +647,14 @@ func (w *wk) rt(fn int, val uint64, enc []byte, got uint64, n uint64, err error,
 // the decoders. Every call allocates inside the package under test (result slice, interface
 // boxing: 30-60 ns apiece on the verification host), so the tiers are:
 //
-//	thorough  every one of the 2^32 values, all nine calls (incl. DecodeInt33AsInt64, LoadInt64,
-//	          DecodeInt64 on the s32 bytes: an s32 form is an s33 and an s64 form)
+//	thorough  every one of the 2^32 values, seven calls (two encoders, four 32-bit decoder entry
+//	          points, DecodeInt33AsInt64 on the s32 bytes: an s32 form is an s33 form)
 //	quick     every value below 2^quickBits unsigned / every signed value with zigzag index below
 //	          2^quickBits (quickBits = 28: every 1..4-byte form), encoders on all of them, decoders
 //	          on those whose lowest group is in the boundary alphabet; plus the structured set over
 //	          the whole 32-bit range: every bit pattern in which at most two of the four low 7-bit
-//	          groups lie outside the boundary alphabet (top 4 bits free), all nine calls.
+//	          groups lie outside the boundary alphabet (top 4 bits free), those seven calls plus
+//	          LoadInt64 / DecodeInt64 on the s32 bytes.
 
 type aStage struct {
 	cur   uint32
@@ -769,7 +770,7 @@ func partA(r *mc.Run, bitsN int, decodeAll bool, decodeGroups []byte) {
 			if decS {
 				nrd++
 			}
-			w.value32(&st, &ref, x, s, decU, decS, decodeAll)
+			w.value32(&st, &ref, x, s, decU, decS, false)
 			if ci == 0 && (o == 127 || o == 128) {
 				r.Sample(map[string]interface{}{"part": "A", "value_u32": x, "EncodeUint32": hexs(leb128.EncodeUint32(x)), "value_s32": s, "EncodeInt32": hexs(leb128.EncodeInt32(s))})
 			}
@@ -964,30 +965,69 @@ func partB(r *mc.Run, groups []byte) {
 
 }
 
-// partB33: every s33 value outside the s32 range (thorough; last, being the least essential).
-func partB33(r *mc.Run) {
-	// every s33 value outside the s32 range (the s32 half went through DecodeInt33AsInt64 in part A)
-	const chunkBits = 20
+// partB33: s33 values outside the s32 range (the s32 half goes through DecodeInt33AsInt64 in
+// part A). Every 33-bit pattern t<<28 | g3<<21 | g2<<14 | g1<<7 | g0 whose top five bits t have
+// bit 32 != bit 31 (16 of 32: exactly the values that do not fit s32) and in which at most
+// maxOut of g0..g3 lie outside the boundary alphabet; encoded with EncodeInt64, decoded with
+// DecodeInt33AsInt64. (All 2^32 such values cost two allocating calls each; not worth a
+// quarter of the thorough budget.)
+func partB33(r *mc.Run, alphabet []byte, maxOut int) {
+	var in, out []uint64
+	var isIn [128]bool
+	for _, g := range alphabet {
+		isIn[g] = true
+	}
+	for g := uint64(0); g < 128; g++ {
+		if isIn[g] {
+			in = append(in, g)
+		} else {
+			out = append(out, g)
+		}
+	}
+	type job struct {
+		t    uint64
+		mask int
+	}
+	var jobs []job
+	for mask := 0; mask < 16; mask++ {
+		if bits.OnesCount(uint(mask)) > maxOut {
+			continue
+		}
+		for t := uint64(0); t < 32; t++ {
+			if t>>4 != t>>3&1 {
+				jobs = append(jobs, job{t, mask})
+			}
+		}
+	}
+	sort.SliceStable(jobs, func(a, b int) bool { return bits.OnesCount(uint(jobs[a].mask)) < bits.OnesCount(uint(jobs[b].mask)) })
 	var n33 atomic.Int64
-	mc.ParallelFor(1<<(32-chunkBits), func(ci int) {
+	mc.ParallelFor(len(jobs), func(ji int) {
 		if r.Expired() {
 			capHit(r, "deadline(partB-s33)")
 			return
 		}
+		j := jobs[ji]
 		w := newWk()
 		defer w.done(r)
-		base := uint64(ci) << chunkBits
-		for o := uint64(0); o < 1<<chunkBits; o++ {
-			u := base + o // 0 .. 2^32-1
-			var y int64
-			if u < 1<<31 {
-				y = int64(1)<<31 + int64(u) // [2^31, 2^32)
-			} else {
-				y = -(int64(1) << 32) + int64(u-1<<31) // [-2^32, -2^31)
+		var sets [4][]uint64
+		for k := 0; k < 4; k++ {
+			sets[k] = in
+			if j.mask>>uint(k)&1 == 1 {
+				sets[k] = out
 			}
-			w.checkValue33(y)
 		}
-		n33.Add(1 << chunkBits)
+		n := int64(0)
+		for _, g3 := range sets[3] {
+			for _, g2 := range sets[2] {
+				for _, g1 := range sets[1] {
+					for _, g0 := range sets[0] {
+						w.checkValue33(sext33(j.t<<28 | g3<<21 | g2<<14 | g1<<7 | g0))
+						n++
+					}
+				}
+			}
+		}
+		n33.Add(n)
 	})
 	r.Extra("partB_s33_values_outside_s32", n33.Load())
 }
@@ -1090,7 +1130,7 @@ func partC(r *mc.Run, cont64 []byte, contOver []byte, fullLen64 int) {
 			add(d, L, cont64, false)
 		}
 		add(d, 11, contOver, false)
-		add(d, 12, contOver, false)
+		add(d, 12, []byte{0x80, 0xc0, 0xff}, false)
 		for L := fullLen64 + 1; L <= 12; L++ { // oracle cross-check on a sub-alphabet
 			add(d, L, alpha2, true)
 		}
@@ -1179,8 +1219,8 @@ func main() {
 	debug.SetGCPercent(400)
 
 	groupsB := mc.Pick(r, []byte{0x00, 0x01, 0x3f, 0x40, 0x7f}, []byte{0x00, 0x01, 0x02, 0x3f, 0x40, 0x7e, 0x7f})
-	cont64 := mc.Pick(r, []byte{0x80, 0xbf, 0xc0, 0xff}, []byte{0x80, 0x81, 0xbf, 0xc0, 0xfe, 0xff})
-	contOver := mc.Pick(r, []byte{0x80, 0xc0, 0xff}, []byte{0x80, 0xbf, 0xc0, 0xff})
+	cont64 := mc.Pick(r, []byte{0x80, 0xbf, 0xc0, 0xff}, []byte{0x80, 0x81, 0xbf, 0xc0, 0xff})
+	contOver := mc.Pick(r, []byte{0x80, 0xc0, 0xff}, []byte{0x80, 0xbf, 0xc0, 0xff}) // length 11; length 12 always the 3-letter one
 	fullLen64 := mc.Pick(r, 5, 6)
 
 	r.Rule("A: 32-bit values (which: see bounds; unsigned ascending, signed 0,-1,1,-2,...) through Encode{Uint,Int}32 (bytes = minimal reference form), those bytes then through Load*/Decode* (which values: see bounds); " +
@@ -1192,14 +1232,15 @@ func main() {
 		fmt.Sprintf("u32: every value < 2^%d; s32: every value with zigzag index < 2^%d (|v| <= 2^%d); plus the structured set over the whole range: every bit pattern with at most two of its four low 7-bit groups outside {% x}, top 4 bits free", quickBits, quickBits, quickBits-1, groupsB[:5]),
 		"all 2^32 through EncodeUint32 and all 2^32 through EncodeInt32"))
 	r.Bound("partA_values_decoded", mc.Pick(r,
-		fmt.Sprintf("range part: those whose lowest 7-bit group is in {% x}; structured part: all; both entry points, DecodeInt33AsInt64 too", groupsB[:5]),
-		"all 2^32, both entry points, plus DecodeInt33AsInt64/LoadInt64/DecodeInt64 on the s32 bytes"))
+		fmt.Sprintf("range part: those whose lowest 7-bit group is in {% x}; structured part: all, plus LoadInt64/DecodeInt64 on the s32 bytes; both entry points, DecodeInt33AsInt64 too", groupsB[:5]),
+		"all 2^32, both entry points, plus DecodeInt33AsInt64 on the s32 bytes"))
 	r.Bound("partB_group_alphabet", fmt.Sprintf("% x", groupsB))
-	r.Bound("partB_all_s33_values", r.Thorough())
+	r.Bound("partB_s33_outside_s32", fmt.Sprintf("top five bits: the 16 patterns with bit32 != bit31; at most %d of the four low groups outside {% x}", mc.Pick(r, 2, 3), groupsB[:5]))
 	r.Bound("partC_full_alphabet", fmt.Sprintf("% x (every non-final position, lengths 1..5 for 32/33-bit, 1..%d for 64-bit)", alphaFull, fullLen64))
 	r.Bound("partC_continuation_alphabet_32bit_len6-7", fmt.Sprintf("% x", contFull))
 	r.Bound("partC_continuation_alphabet_64bit_to_len10", fmt.Sprintf("% x", cont64))
-	r.Bound("partC_continuation_alphabet_64bit_len11-12", fmt.Sprintf("% x", contOver))
+	r.Bound("partC_continuation_alphabet_64bit_len11", fmt.Sprintf("% x", contOver))
+	r.Bound("partC_continuation_alphabet_64bit_len12", "80 c0 ff")
 	r.Bound("partC_final_byte", "0..255 at every length")
 	r.Assume("the package has no unsigned 64-bit decoder and no dedicated 33-bit encoder: u64 is checked on the encoder only (bytes = minimal reference encoding, which the spec oracle decodes back), s33 values are encoded with EncodeInt64")
 	r.Assume("decoders parse a prefix: bytes after the first byte without continuation bit are ignored, and bytesRead / bytes taken from the io.ByteReader must equal the length of the derived form")
@@ -1225,8 +1266,8 @@ func main() {
 			partAStructured(r, groupsB[:5])
 		}
 	}
-	if strings.Contains(parts, "B") && r.Thorough() {
-		partB33(r)
+	if strings.Contains(parts, "B") {
+		partB33(r, groupsB[:5], mc.Pick(r, 2, 3))
 	}
 
 	// oracle self-consistency and vacuity
